@@ -12,8 +12,10 @@
    nodes, with central-difference slopes: no cache, no normalisation. *)
 Require Import Cherab.Common.Qx.
 Require Import Cherab.Model.C14_Cache Cherab.Model.C14_Caching.
+Require Import Cherab.Model.C14_System.
 Require Import Cherab.Proofs.C14_History Cherab.Proofs.C14_Hermite Cherab.Proofs.C14_Find Cherab.Proofs.C14_Grid
-               Cherab.Proofs.C14_Dim1 Cherab.Proofs.C14_Tensor.
+               Cherab.Proofs.C14_Dim1 Cherab.Proofs.C14_Tensor Cherab.Proofs.C14_Error Cherab.Proofs.C14_ErrorDims
+               Cherab.Proofs.C14_System.
 Open Scope Q_scope.
 
 (* ---- 1. history independence: for EVERY list of previously evaluated points (inside or outside the
@@ -196,6 +198,110 @@ Theorem C14_error_bound_partial :
                  - ((5 # 4) * E) <= v - (a + b * p) <= (5 # 4) * E).
 Proof. exact after1_error_partial. Qed.
 Print Assumptions C14_error_bound_partial.
+
+(* ---- 10. Error bound for EVERY cell (first and last included) of EVERY increasing grid, 1-D / 2-D / 3-D, after any
+        history.  The only hypothesis about the wrapped function is Taylor's inequality along the axes at the
+        evaluation point: [taylor4 x i phi t g M] says |phi(x_k) - phi(t) - g (x_k - t)| <= (M/2) (x_k - t)^2 at the four
+        nodes x_(i-1) .. x_(i+2) of the cell (for a twice differentiable phi with |phi''| <= M this is Taylor's theorem
+        with Lagrange remainder, g = phi'(t)); H bounds the three node spacings of the stencil.  Then
+        |value - f(p)| <= 3 Mx Hx^2  (+ 9/2 My Hy^2 (+ 27/4 Mz Hz^2)).
+        WHAT REMAINS of the property's clause: Taylor's theorem itself (analysis over the reals: that such g exists for
+        every twice differentiable function); everything algebraic, all cells, all dimensions, is proved here. ---- *)
+Theorem C14_cubic_stability_any_nodes :
+  forall xm x0 x1 x2 a b dm d0 d1 d2 t E, xm < x0 -> x0 < x1 -> x1 < x2 -> x0 <= t <= x1 ->
+  - E <= dm - (a + b * xm) <= E -> - E <= d0 - (a + b * x0) <= E ->
+  - E <= d1 - (a + b * x1) <= E -> - E <= d2 - (a + b * x2) <= E ->
+  - ((3 # 2) * E) <= HL xm x0 x1 x2 dm d0 d1 d2 t - (a + b * t) <= (3 # 2) * E.
+Proof. exact HL_general_stability. Qed.
+Print Assumptions C14_cubic_stability_any_nodes.
+
+Theorem C14_error_bound_from_taylor_1d :
+  forall x top, increasing x top -> (3 <= top)%Z -> forall fb nbe f hist p i v g M H,
+  locate1 x top p = Some i -> eval_after1 fb nbe x top f hist p = Val v ->
+  spacing_le x i H -> 0 <= M -> taylor4 x i f p g M ->
+  - (3 * M * (H * H)) <= v - f p <= 3 * M * (H * H).
+Proof. exact after1_error_bound. Qed.
+Print Assumptions C14_error_bound_from_taylor_1d.
+
+Theorem C14_error_bound_from_taylor_2d :
+  forall x y topx topy, increasing x topx -> increasing y topy -> (3 <= topx)%Z -> (3 <= topy)%Z ->
+  forall fb nbe f hist px py i j v gx gy Mx My Hx Hy,
+  locate2 x y topx topy (px, py) = Some (i, j) ->
+  eval_after2 fb nbe x y topx topy f hist (px, py) = Val v ->
+  spacing_le x i Hx -> spacing_le y j Hy -> 0 <= Mx -> 0 <= My ->
+  (forall u, (i - 1 <= u <= i + 2)%Z -> taylor4 y j (fun b => f (x u, b)) py (gy u) My) ->
+  taylor4 x i (fun a => f (a, py)) px gx Mx ->
+  - (3 * Mx * (Hx * Hx) + (9 # 2) * My * (Hy * Hy)) <= v - f (px, py)
+  <= 3 * Mx * (Hx * Hx) + (9 # 2) * My * (Hy * Hy).
+Proof. exact after2_error_bound. Qed.
+Print Assumptions C14_error_bound_from_taylor_2d.
+
+Theorem C14_error_bound_from_taylor_3d :
+  forall x y z topx topy topz, increasing x topx -> increasing y topy -> increasing z topz ->
+  (3 <= topx)%Z -> (3 <= topy)%Z -> (3 <= topz)%Z ->
+  forall fb nbe f hist px py pz i j k v gx gy gz Mx My Mz Hx Hy Hz,
+  locate3 x y z topx topy topz (px, py, pz) = Some (i, j, k) ->
+  eval_after3 fb nbe x y z topx topy topz f hist (px, py, pz) = Val v ->
+  spacing_le x i Hx -> spacing_le y j Hy -> spacing_le z k Hz -> 0 <= Mx -> 0 <= My -> 0 <= Mz ->
+  (forall u w, (i - 1 <= u <= i + 2)%Z -> (j - 1 <= w <= j + 2)%Z ->
+               taylor4 z k (fun c => f (x u, y w, c)) pz (gz u w) Mz) ->
+  (forall u, (i - 1 <= u <= i + 2)%Z -> taylor4 y j (fun b => f (x u, b, pz)) py (gy u) My) ->
+  taylor4 x i (fun a => f (a, py, pz)) px gx Mx ->
+  - (3 * Mx * (Hx * Hx) + (9 # 2) * My * (Hy * Hy) + (27 # 4) * Mz * (Hz * Hz)) <= v - f (px, py, pz)
+  <= 3 * Mx * (Hx * Hx) + (9 # 2) * My * (Hy * Hy) + (27 # 4) * Mz * (Hz * Hz).
+Proof. exact after3_error_bound. Qed.
+Print Assumptions C14_error_bound_from_taylor_3d.
+
+(* ---- 11. The 16x16 / 64x64 systems of Caching2D / Caching3D (Model/C14_System.v; the rows, right-hand sides and
+        EPSILON are regenerated from the source and tied in coq/Gen/C14/C14_SrcTie.v on every run): the coefficient
+        array of the tensor-product cubic satisfies every row at every knot (dx, dy, dz: derivative flags of the row;
+        kx, ky, kz: which knot), the systems have no other solution, and the polynomial with these coefficients is
+        what the model's stored block evaluates ---- *)
+Theorem C14_tensor_cubic_solves_the_2d_system :
+  forall dx dy kx ky xn yn D, nd_ok xn -> nd_ok yn ->
+  dotl (row2 dx dy (knot_of xn kx) (knot_of yn ky)) (flat2 (coef2 xn yn D)) == cv2 dx dy kx ky xn yn D.
+Proof. exact system_2d. Qed.
+Print Assumptions C14_tensor_cubic_solves_the_2d_system.
+
+Theorem C14_tensor_cubic_solves_the_3d_system :
+  forall dx dy dz kx ky kz xn yn zn D, nd_ok xn -> nd_ok yn -> nd_ok zn ->
+  dotl (row3 dx dy dz (knot_of xn kx) (knot_of yn ky) (knot_of zn kz)) (flat3 (coef3 xn yn zn D))
+  == cv3 dx dy dz kx ky kz xn yn zn D.
+Proof. exact system_3d. Qed.
+Print Assumptions C14_tensor_cubic_solves_the_3d_system.
+
+Theorem C14_2d_system_has_one_solution :
+  forall xn yn (C C' : Z -> Z -> Q), nd_ok xn -> nd_ok yn ->
+  (forall dx dy kx ky,
+     dotv (compv dx (knot_of xn kx)) (fun i => dotv (compv dy (knot_of yn ky)) (fun j => C i j))
+     == dotv (compv dx (knot_of xn kx)) (fun i => dotv (compv dy (knot_of yn ky)) (fun j => C' i j))) ->
+  forall i j, in4 i -> in4 j -> C i j == C' i j.
+Proof. exact unique_2d. Qed.
+Print Assumptions C14_2d_system_has_one_solution.
+
+Theorem C14_3d_system_has_one_solution :
+  forall xn yn zn (C C' : Z -> Z -> Z -> Q), nd_ok xn -> nd_ok yn -> nd_ok zn ->
+  (forall dx dy dz kx ky kz,
+     dotv (compv dx (knot_of xn kx)) (fun i => dotv (compv dy (knot_of yn ky)) (fun j =>
+       dotv (compv dz (knot_of zn kz)) (fun k => C i j k)))
+     == dotv (compv dx (knot_of xn kx)) (fun i => dotv (compv dy (knot_of yn ky)) (fun j =>
+       dotv (compv dz (knot_of zn kz)) (fun k => C' i j k)))) ->
+  forall i j k, in4 i -> in4 j -> in4 k -> C i j k == C' i j k.
+Proof. exact unique_3d. Qed.
+Print Assumptions C14_3d_system_has_one_solution.
+
+Theorem C14_stored_block_is_that_polynomial_2d :
+  forall xn yn vals tx ty, length vals = 16%nat -> nd_ok xn -> nd_ok yn ->
+  HLl xn (reduce yn ty vals) tx == dotl (row2 false false tx ty) (flat2 (coef2 xn yn (block2 vals))).
+Proof. exact block_value_2d. Qed.
+Print Assumptions C14_stored_block_is_that_polynomial_2d.
+
+Theorem C14_stored_block_is_that_polynomial_3d :
+  forall xn yn zn vals tx ty tz, length vals = 64%nat -> nd_ok xn -> nd_ok yn -> nd_ok zn ->
+  HLl xn (reduce yn ty (reduce zn tz vals)) tx
+  == dotl (row3 false false false tx ty tz) (flat3 (coef3 xn yn zn (block3 vals))).
+Proof. exact block_value_3d. Qed.
+Print Assumptions C14_stored_block_is_that_polynomial_3d.
 
 (* non-vacuity: an accepted axis (area (0,1), resolution 1/4: 7 nodes) meets the hypotheses, and its cell 2 is
    an equally spaced one *)
